@@ -664,6 +664,10 @@ func hbScenarios(tier string, seed uint64, only string) []hbScenario {
 		add("upgrade", I, T, "none", "-", 0, -1, "")
 		add("websocket", I, T, "none", "-", 0, int64(rnd.Intn(int(I))), "")
 		add("polling", I, T, "none", "-", 0, int64(rnd.Intn(int(I))), "")
+		// I != T: an interval/timeout mix-up is invisible at I = T
+		add("websocket", I, 2*T, "both", "after-pong", 1, -1, "")
+		add("polling", I, 2*T, "s2c", "before-ping", 1, -1, "")
+		add("websocket", I, 2*T, "extra-pong", "extra-pong", 1, -1, "raw")
 		// replay of the model's witnesses
 		add("websocket", I, T, "extra-pong", "extra-pong", 1, -1, "raw")
 		add("websocket", I, T, "jitter", "jitter", 1, -1, "")
